@@ -168,3 +168,36 @@ Proof.
     rewrite Ht. cbn. lia.
   - apply IH. intros l1 x l2 E Hx y Hy. apply (H (a :: l1) x l2); [cbn; f_equal; exact E|exact Hx|exact Hy].
 Qed.
+
+(** ** a sequential history has one linearisation: itself *)
+Section Sequential.
+Context {O R : Type}.
+
+(* every call returned before the next one was invoked *)
+Fixpoint sequential (h : list (opr O R)) : Prop :=
+  match h with
+  | [] => True
+  | x :: t => (forall y, In y t -> precedes x y) /\ sequential t
+  end.
+
+Lemma sequential_unique : forall h l, sequential h -> Permutation l h -> rt_ordered l -> l = h.
+Proof.
+  induction h as [|x t IH]; intros l Hs Hp Hrt.
+  - apply Permutation_sym in Hp. apply Permutation_nil in Hp. exact Hp.
+  - destruct l as [|a l']; [apply Permutation_nil in Hp; discriminate|].
+    cbn [sequential rt_ordered] in Hs, Hrt. destruct Hs as [Hx Hs], Hrt as [Ha Hrt].
+    assert (Hax : a = x).
+    { assert (Hin : In a (x :: t)) by (eapply Permutation_in; [exact Hp|left; reflexivity]).
+      destruct Hin as [E|Hin]; [auto|].
+      assert (Hxl : In x (a :: l')) by (eapply Permutation_in; [apply Permutation_sym; exact Hp|left; reflexivity]).
+      destruct Hxl as [E|Hxl]; [auto|]. exfalso. exact (Ha x Hxl (Hx a Hin)). }
+    subst a. f_equal. apply IH; [exact Hs|eapply Permutation_cons_inv; exact Hp|exact Hrt].
+Qed.
+
+Lemma legal_in : forall {S} (acc : S -> O -> R -> S -> Prop) l s sf x, legal acc s l sf -> In x l ->
+  exists s1 s2, acc s1 (o_op x) (o_res x) s2.
+Proof.
+  intros S acc. induction l as [|a t IH]; intros s sf x Hl Hx; [destruct Hx|].
+  inversion Hl; subst. destruct Hx as [<-|Hx]; [eauto|]. eapply IH; eauto.
+Qed.
+End Sequential.
